@@ -479,7 +479,11 @@ func (w *World) valIndexOfAddr(a common.Address) int {
 }
 
 func (w *World) voteID(v *types.Vote) string {
-	return fmt.Sprintf("V|%d|%d|%d|%x|%s|%x", v.Height, v.Round, v.Type, v.ValidatorAddress[:4], blockKey(v.BlockID), v.Signature[:8])
+	sig := v.Signature
+	if len(sig) > 8 {
+		sig = sig[:8]
+	}
+	return fmt.Sprintf("V|%d|%d|%d|%x|%s|%x", v.Height, v.Round, v.Type, v.ValidatorAddress[:4], blockKey(v.BlockID), sig)
 }
 
 func (w *World) wrap(m consensus.Message, from int) *Msg {
